@@ -1,5 +1,6 @@
 //! `sut`: the system-under-test driver. One subcommand per engine.
 
+mod c11;
 mod enc;
 mod natives;
 mod runner;
@@ -49,11 +50,109 @@ fn cmd_run() {
     }
 }
 
+/// C03: for each spec, run the no-collection baseline, then every GC schedule in the bound,
+/// comparing the whole outcome. Output per spec: counts, or the first differing schedule.
+fn cmd_gcsweep() {
+    install_panic_hook();
+    let stdin = std::io::stdin();
+    let stdout = std::io::stdout();
+    let mut out = std::io::BufWriter::new(stdout.lock());
+    for line in stdin.lock().lines() {
+        let line = line.unwrap();
+        if line.trim().is_empty() {
+            continue;
+        }
+        let spec: J = serde_json::from_str(&line).expect("bad spec json");
+        let id = spec.get("id").cloned().unwrap_or(J::Null);
+        let full_n = spec.get("full_n").and_then(|x| x.as_u64()).unwrap_or(10) as usize;
+        let strip = |mut o: J| -> J {
+            o.as_object_mut().unwrap().remove("gc");
+            o
+        };
+        let run = |mask: &[bool], tail: bool| -> Result<J, String> {
+            panic::catch_unwind(panic::AssertUnwindSafe(|| runner::run_spec_gc(&spec, Some((mask, tail)))))
+                .map_err(|_| take_panic())
+        };
+        let base = match run(&[], false) {
+            Ok(b) => b,
+            Err(p) => {
+                writeln!(out, "{}", json!({"id": id, "base_panic": p})).unwrap();
+                out.flush().unwrap();
+                continue;
+            }
+        };
+        let n = base["gc"]["safepoints"].as_u64().unwrap_or(0) as usize;
+        let base_s = strip(base.clone());
+        // determinism of the baseline itself
+        let base2 = run(&[], false).map(strip);
+        if base2.as_ref().ok() != Some(&base_s) {
+            writeln!(out, "{}", json!({"id": id, "nondeterministic_baseline": true})).unwrap();
+            out.flush().unwrap();
+            continue;
+        }
+        let mut schedules: Vec<(Vec<bool>, bool)> = Vec::new();
+        if n <= full_n {
+            for m in 1u64..(1u64 << n) {
+                schedules.push(((0..n).map(|i| m >> i & 1 == 1).collect(), false));
+            }
+        } else {
+            for i in 0..n {
+                let mut v = vec![false; n];
+                v[i] = true;
+                schedules.push((v.clone(), false));
+                for j in i + 1..n {
+                    let mut w = v.clone();
+                    w[j] = true;
+                    schedules.push((w, false));
+                }
+            }
+            for k in 1..=4 {
+                for off in 0..k {
+                    schedules.push(((0..n).map(|i| i % k == off).collect(), false));
+                }
+            }
+            schedules.push((vec![], true));
+        }
+        let mut bad: Option<J> = None;
+        let mut collections = 0u64;
+        let mut runs = 0u64;
+        for (mask, tail) in &schedules {
+            runs += 1;
+            match run(mask, *tail) {
+                Ok(o) => {
+                    collections += o["gc"]["collections"].as_u64().unwrap_or(0);
+                    let o = strip(o);
+                    if o != base_s {
+                        let ms: String = mask.iter().map(|b| if *b { '1' } else { '0' }).collect();
+                        bad = Some(json!({"mask": ms, "tail": tail, "got": o}));
+                        break;
+                    }
+                }
+                Err(p) => {
+                    let ms: String = mask.iter().map(|b| if *b { '1' } else { '0' }).collect();
+                    bad = Some(json!({"mask": ms, "tail": tail, "panic": p}));
+                    break;
+                }
+            }
+        }
+        writeln!(
+            out,
+            "{}",
+            json!({"id": id, "safepoints": n, "schedules": runs, "collections": collections,
+                   "full": n <= full_n, "base": base_s, "diff": bad})
+        )
+        .unwrap();
+        out.flush().unwrap();
+    }
+}
+
 fn main() {
     let args: Vec<String> = std::env::args().collect();
     let cmd = args.get(1).map(|s| s.as_str()).unwrap_or("");
     match cmd {
         "run" => cmd_run(),
+        "gcsweep" => cmd_gcsweep(),
+        "c11" => c11::cmd(),
         _ => {
             eprintln!("usage: sut <run|...>");
             std::process::exit(2);
